@@ -270,7 +270,7 @@ theorem view_eq_paths_processAll (reg : Registry) (opts : Opts) (plug : Plug)
 
 /-- **(f) "… or reported", for `processAll`**, `PhaseInput` discharged: `processAll` stops before
 the augment phase with errors, or it enters it in a state without recorded errors from which every
-pending augment is applied (by the loop, or by the leftover pass) or `processAll` returns errors;
+pending augment is applied (by the loop, or by the stage after FixChoice: retry rounds, reporting sweep) or `processAll` returns errors;
 and an application of the loop that collides makes `processAll` return errors. -/
 theorem augment_reported_processAll (reg : Registry) (opts : Opts) (plug : Plug) (hL : LoadedShape reg)
     (hpos : AugPosDistinct reg) (hplain : AugArgsPlain reg) :
@@ -291,7 +291,8 @@ theorem augment_reported_processAll (reg : Registry) (opts : Opts) (plug : Plug)
 
 /-- Consequently: when `processAll` returns no errors, every augment statement of every loaded
 (sub)module (every entry of every pending list) has been applied, by the loop or — for a target
-that only FixChoice creates — by the leftover pass; and no application of the loop collided. -/
+that only FixChoice creates, or that such an augment creates — by the stage after FixChoice (retry
+rounds, reporting sweep); and no application of the loop collided. -/
 theorem clean_process_applied_all (reg : Registry) (opts : Opts) (plug : Plug) (hL : LoadedShape reg)
     (hpos : AugPosDistinct reg) (hplain : AugArgsPlain reg) (hclean : (processAll reg opts plug).errors = []) :
     ∃ s order, phaseStart reg opts plug = some (s, order) ∧
